@@ -84,6 +84,7 @@ struct Th {
     cv_spurious_ok: Option<usize>,
     start_ev: Option<usize>,
     in_region: bool,
+    tls_init: [bool; 2],
     /// write events this thread has read or written
     seen: Vec<usize>,
     /// ... as of its last definite yield
@@ -194,6 +195,7 @@ pub struct Machine<'p> {
     block_live: Vec<Vec<bool>>,
     last_sc_fence: Option<usize>,
     cell_val: Vec<u64>,
+    lazy_init_ev: [Option<usize>; 2],
     /// guided replay: a cell read returned something else than the latest write (only legal in
     /// an execution that has a data race)
     pub cell_mismatch: bool,
@@ -264,6 +266,7 @@ impl<'p> Machine<'p> {
             block_live: vec![vec![false; p.n_block as usize]; nt],
             last_sc_fence: None,
             cell_val: vec![0; p.n_cell as usize],
+            lazy_init_ev: [None; 2],
             cell_mismatch: false,
             extra_large: Vec::new(),
             results: p.threads.iter().map(|t| vec![None; t.len()]).collect(),
@@ -440,6 +443,9 @@ impl<'p> Machine<'p> {
                 | Op::StopExploring
                 | Op::Explore
                 | Op::SkipBranch
+                | Op::TlsWith { .. }
+                | Op::TlsNested { .. }
+                | Op::LazyGet { .. }
         )
     }
 
@@ -1167,7 +1173,40 @@ impl<'p> Machine<'p> {
             Op::TrackDrop { k } => self.track_live[t][k as usize] = false,
             Op::Alloc { k } => self.block_live[t][k as usize] = true,
             Op::Dealloc { k } => self.block_live[t][k as usize] = false,
-            Op::TlsWith { .. } | Op::TlsNested { .. } | Op::LazyGet { .. } => unimplemented!(),
+            Op::TlsWith { k } => {
+                // first use on this thread runs the initialiser
+                let first = !self.th[t].tls_init[k as usize];
+                self.th[t].tls_init[k as usize] = true;
+                self.tls_access(t, pc, k);
+                res = Some(first as u64);
+            }
+            Op::TlsNested { k, j } => {
+                let fk = !self.th[t].tls_init[k as usize];
+                self.th[t].tls_init[k as usize] = true;
+                self.tls_access(t, pc, k);
+                let fj = !self.th[t].tls_init[j as usize];
+                self.th[t].tls_init[j as usize] = true;
+                self.tls_access(t, pc, j);
+                res = Some(fk as u64 * 2 + fj as u64);
+            }
+            Op::LazyGet { k } => {
+                // first use in the execution initialises (the initialiser writes the value);
+                // initialisation happens-before every access
+                let loc = LAZY_CELL_BASE + k as u16;
+                if self.lazy_init_ev[k as usize].is_none() {
+                    let e = self.push_ev(t, pc, EK::Sync, loc, MO::Rlx);
+                    self.g.evs[e].na = true;
+                    self.g.evs[e].na_write = true;
+                    self.lazy_init_ev[k as usize] = Some(e);
+                }
+                let e = self.push_ev(t, pc, EK::Sync, loc, MO::Rlx);
+                self.g.evs[e].na = true;
+                self.g.evs[e].na_write = false;
+                let init = self.lazy_init_ev[k as usize].unwrap();
+                if init != e {
+                    self.g.extra.push((init, e));
+                }
+            }
             Op::StopExploring => self.th[t].in_region = true,
             Op::Explore => self.th[t].in_region = false,
             Op::SkipBranch => {}
@@ -1188,6 +1227,13 @@ impl<'p> Machine<'p> {
             self.finish_op(t, pc, res);
         }
         Ok(completed)
+    }
+
+    /// access to this thread's own instance of thread-local k (a per-thread location)
+    fn tls_access(&mut self, t: usize, pc: usize, k: u8) {
+        let e = self.push_ev(t, pc, EK::Sync, TLS_CELL_BASE + (t as u16) * 2 + k as u16, MO::Rlx);
+        self.g.evs[e].na = true;
+        self.g.evs[e].na_write = false;
     }
 
     /// non-atomic access to the payload of arc `r`
